@@ -92,14 +92,10 @@ def run(ctx):
                 continue
             lens = {'disassembler': d['length'], 'traceutils': t['length']}
             # opcodes.py
-            otab = oc.tables[fam]
-            if b in otab:
-                lens['opcodes.py'] = otab[b][0]
-            elif fam in oc.fallback:
-                size, back, line = oc.fallback[fam]
-                lens['opcodes.py'] = size
-            else:
-                ctx.violation(name, ocfile, 'opcodes.py table %s has no entry for 0x%02X and no KeyError fall-back' % (oc.NAMES[fam], b), rule='C07.4-totality')
+            try:
+                lens['opcodes.py'] = oc.size(fam, b)
+            except KeyError:
+                ctx.violation(name, ocfile, 'opcodes.py table %s has no entry for 0x%02X and no KeyError fall-back catches it' % (oc.NAMES[fam], b), rule='C07.4-totality')
             # DD/FD + non-indexable opcode: the prefix is a 1-byte no-op everywhere
             sm = sim.get((fam, b))
             if sm:
